@@ -177,6 +177,7 @@ type AcctView struct {
 	Balance  string
 	CodeHash string
 	Storage  map[string]string
+	ZeroSlots int `json:",omitempty"` // informational: slots stored with an all-zero value (evermint side only)
 }
 
 func (v AcctView) Equal(o AcctView) bool {
@@ -222,5 +223,16 @@ func SortedAddrs(m map[common.Address]struct{}) []common.Address {
 		out = append(out, a)
 	}
 	sort.Slice(out, func(i, j int) bool { return string(out[i].Bytes()) < string(out[j].Bytes()) })
+	return out
+}
+
+// Accounts enumerates every account of the reference world (needs preimages, enabled in NewShadow).
+func (s *Shadow) Accounts() []common.Address {
+	sdb := s.open()
+	d := sdb.RawDump(&state.DumpConfig{SkipCode: true, SkipStorage: true})
+	out := make([]common.Address, 0, len(d.Accounts))
+	for a := range d.Accounts {
+		out = append(out, a)
+	}
 	return out
 }
